@@ -62,6 +62,7 @@ class Verifier:
         self.inlined = set()
         self.facts_used = set()
         self.at_hits = set()
+        self.opaque_hits = set()
         self.auto_inlined = set()
         self.feas_cache = {}
         self.dropped = set()
